@@ -81,6 +81,9 @@ func (p MembershipProof) Verify(eventDigest []byte, expectedRootHash hashing.Dig
 	// build a visitable pruned tree and then visit it to recompute root hash
 	visitor := newComputeHashVisitor(p.hasher, p.AuditPath)
 	recomputed := pruneToVerify(p.Index, p.Version, eventDigest).Accept(visitor)
+	if visitor.missing {
+		return false
+	}
 
 	return bytes.Equal(recomputed, expectedRootHash)
 }
@@ -106,6 +109,9 @@ func (p IncrementalProof) Verify(startDigest, endDigest hashing.Digest) (correct
 	visitor := newComputeHashVisitor(p.hasher, p.AuditPath)
 	startRecomputed := pruneToVerifyIncrementalStart(p.StartVersion).Accept(visitor)
 	endRecomputed := pruneToVerifyIncrementalEnd(p.StartVersion, p.EndVersion).Accept(visitor)
+	if visitor.missing {
+		return false
+	}
 
 	return bytes.Equal(startRecomputed, startDigest) && bytes.Equal(endRecomputed, endDigest)
 
